@@ -813,3 +813,12 @@ for _r, _nm, _op, _rch in _GET_RULES:
       functions=["get_elements", "get_elements_in_peer", "create_fetch", "add_matchers", "create_matcher", "state_matches", "free_fetch"],
       symbolic="state value (operand byte '%s' fixed per obligation)" % _op, assumes=["set-up add of 'ab' succeeds"],
       bounds="skeleton: A add 'ab'; B get with rule shape '%s' and operand byte '%s'; struct-hack arrays: --no-bounds-check (object bounds still checked)" % (_nm, _op), **_scn_rule)
+
+for _k, _kn in ((1, "owner_disconnect"), (2, "caller_disconnect")):
+    for _rf, _nm in ((1, "%s_then_expiry" % _kn), (0, "expiry_then_%s" % _kn)):
+        O(id="C14.batch_" + _nm, props=["C14", "C03", "C05", "C06", "C07"], entry="harness_batch", defines=["REPLY_FIRST=%d" % _rf, "BATCH_KIND=%d" % _k],
+          functions=["handle_events", "eventloop_epoll_add", "eventloop_epoll_remove", "cjet_timer_init", "timer_read", "timer_cancel", "cjet_timer_destroy",
+                     "free_peer_resources", "remove_routing_info_from_peer", "remove_peer_from_routes", "request_timeout_handler", "setup_routing_information"],
+          symbolic="set value", assumes=["set-up requests succeed", "the timer did expire (reading the timerfd returns one expiration)"],
+          bounds="one routed request; one batch of two events (%s)" % _nm, **_scn_batch)
+_also(["C14.batch_"], ["C14", "C06"])
